@@ -96,6 +96,9 @@ def config(rng):
     else:
         w = {"w": rng.choice(["synth", "synth", "frag"]), "seed": rng.randrange(10 ** 6), "ff": ff,
              "p": {"maxlen": 6, "waters": [0, 2, 4], "na_prob": 0.2, "variant_prob": 0.15, "damage_prob": 0.15}}
+    if "named" not in w and w.get("w") in ("synth", "frag") and rng.random() < 0.3 and "--drop-water" not in opts \
+            and opts != ["--clean"]:
+        w["lone_waters"] = rng.randint(1, 2)
     # input encoding: plain PDB, multi-model PDB, mmCIF (single / multi-model with assorted model numbers)
     if "named" not in w:
         enc = rng.choice(["pdb", "pdb", "pdb", "pdb-models", "pdb-loose", "cif", "cif-models", "cif-models"])
@@ -122,7 +125,18 @@ def text_of(cfg):
         return pdbfmt.to_text(items)
     if cfg["w"].get("named"):
         return (common.REPO / "tests" / "data" / f"{cfg['w']['named']}.pdb").read_text()
-    m = workload.materialise({k: v for k, v in cfg["w"].items() if k not in ("enc", "model_numbers")})
+    m = workload.materialise({k: v for k, v in cfg["w"].items() if k not in ("enc", "model_numbers", "lone_waters")})
+    if cfg["w"].get("lone_waters"):
+        # isolated waters far from everything (no hydrogen-bond partner, no protein atom in the neighbouring cells)
+        atoms_ = [it for it in m["items"] if isinstance(it, dict)]
+        x0 = max(a["x"] for a in atoms_) + 40.0
+        extra_w = [dict(atoms_[-1], rec="HETATM", name="O", resn="HOH", chain="W", resi=950 + k, icode="", alt="",
+                        x=x0 + 25.0 * k, y=atoms_[-1]["y"] + 3.0 * k, z=atoms_[-1]["z"] - 2.0, elem="O")
+                   for k in range(cfg["w"]["lone_waters"])]
+        e = next((i for i, it in enumerate(m["items"]) if it == "END"), len(m["items"]))
+        m["items"][e:e] = extra_w + ["TER"]
+        pdbfmt.renumber(m["items"])
+        m["text"] = pdbfmt.to_text(m["items"])
     enc = cfg["w"].get("enc", "pdb")
     if enc == "pdb":
         return m["text"]
